@@ -37,6 +37,9 @@ def run(chk, tier):
         prog = mir.Program(facts.load_mir(feats))
         check_config(chk, prog, prog.config)
         cr.check_register_type(chk, prog, prog.config, rule="R2.4")
+        # "resolves in the final registry": the conversion to PortableRegistry keeps every (id, definition) pair, resolve is positional
+        cr.check_from_registry(chk, prog, prog.config, rule="R2.6")
+        cr.check_resolve(chk, prog, prog.config, rule="R2.6b")
         # premise "the definition behind an id does not depend on which alias was met first"
         ci.check_identities(chk, prog, prog.config)
     n = len({i["construct"] for i in chk.instances if i["rule"] == "R2.1" and i["construct"].startswith("impl:")})
@@ -90,6 +93,8 @@ def check_config(chk, prog, cfg):
                 isinstance(a, int) and prog.ty(a)["k"] == "adt" and prog.ty(a)["d"] == "scale_info::form::PortableForm" for a in ot["a"])
             chk.expect(ok, "R2.1", "impl:%s:Output" % short, imp["loc"], "Output = %s" % ot["s"], cfg)
         if adt["kind"] == "struct":
+            # a constructor call (`TypeDefX::new_portable(..)`) is judged by what reaches the fields
+            rt = mir.inline_call(prog, rt)
             if not is_adt_agg(rt, st["d"]):
                 chk.unrecognised("R2.1", "impl:" + short, b.where(), "into_portable does not end in a %s{..} aggregate: %s" % (short, path_str(rt)[:300]), cfg)
                 continue
